@@ -238,6 +238,15 @@ def main():
         stats["spellings"] += 1
         if not x["all_same"]:
             kinds = {json.dumps(y.get("u", y), sort_keys=True) for y in x["results"]}
+            # a prefix that mixes bases (kilo x byte = 10^3 x 2^3) has a float exponent, computed in the order the spelling multiplies;
+            # such units are the same up to the numeric scale (1e-9, as for C02's mixed-base laws), not up to identity
+            us = [y.get("u") for y in x["results"]]
+            if all(u is not None and isinstance(u["p"], dict) and u["p"].get("mixed") for u in us):
+                import math
+                lv = lambda u: float(u["p"]["exp"]) * math.log(u["p"]["base"])        # log of the prefix's value (the base is the left operand's)
+                if all(u["f"] == us[0]["f"] and u["d"] == us[0]["d"] and abs(lv(u) - lv(us[0])) <= 1e-9 for u in us):
+                    stats["spellings_mixed_base_same_scale"] = stats.get("spellings_mixed_base_same_scale", 0) + 1
+                    continue
             c.violation("spellings-differ", f"alternative spellings of one unit expression parse differently: {cs['texts'][:3]} ...", {"texts": cs["texts"], "results": x["results"][:6]})
     # the model's collision list must be exactly the collisions observed / listed
     listed = set(known_coll)
